@@ -640,6 +640,27 @@ class Item:
             self.rewrite(s0, bs, hdr + "let vx_r = ", "R3-find_map")
             self.rewrite(be, semi + 1, tail, "R3-find_map")
 
+    def r3_zip_all(self, fn, k):
+        """tail expression `A.zip(B).all(|(g, c)| BODY)` over two lists A, B (place expressions)  ==>  lock-step index loop
+        with early exit: { let mut vx_all = true; let mut vx_i = 0; while vx_i < A.len() && vx_i < B.len() { let g = &A[vx_i];
+        let c = &B[vx_i]; let vx_b = BODY; if !vx_b { vx_all = false; break; } vx_i += 1; } vx_all }   (Zip stops at the
+        shorter list; all() stops at the first false; BODY stays in place)"""
+        k0, _, bo, end, _ = self.fn_span(fn)
+        hits = list(re.finditer(r"([A-Za-z_][A-Za-z0-9_]*)\s*\.\s*zip\s*\(\s*([A-Za-z_][A-Za-z0-9_]*)\s*\)\s*\.\s*all\s*\(", self.m[bo:end]))
+        if len(hits) < k:
+            raise Undecided("LOST-ANCHOR: R3 zip-all #%d in fn %s of %s" % (k, fn, self.where()))
+        h = hits[k - 1]
+        a_, b_ = h.group(1), h.group(2)
+        par = bo + h.end() - 1
+        close = match_brace(self.m, par, "(", ")")
+        mo = re.match(r"\(\s*\|\s*\(\s*([A-Za-z_][A-Za-z0-9_]*)\s*,\s*([A-Za-z_][A-Za-z0-9_]*)\s*\)\s*\|\s*", self.text[par:close])
+        if not mo:
+            raise Undecided("R3 zip-all: closure shape not recognised at %s:%d" % (self.relpath, self.line_of(par)))
+        g_, c_ = mo.group(1), mo.group(2)
+        bs = par + mo.end()
+        self.rewrite(bo + h.start(), bs, "{ let mut vx_all = true;\n  let mut vx_i: usize = 0;\n  while vx_i < %s.len() && vx_i < %s.len()\n  /*@loop*/\n  {\n    let %s = &%s[vx_i]; let %s = &%s[vx_i];/*@body*/\n    let vx_b = " % (a_, b_, g_, a_, c_, b_), "R3-zip-all")
+        self.rewrite(close, close + 1, ";\n    if !vx_b { vx_all = false; break; }\n    vx_i = vx_i + 1;\n  }\n  vx_all }", "R3-zip-all")
+
     def r3_map_collect(self, fn, k):
         """let V: T = RECV.map(|P| BODY).collect();  ==>  explicit loop over the iterator RECV pushing BODY (in place):
         let mut V: T = Vec::new(); let mut vx_mc = RECV; loop { let Some(P) = vx_mc.next() else { break; }; let vx_e = BODY; V.push(vx_e); }
